@@ -1,0 +1,168 @@
+//go:build verif
+
+package rueidis
+
+import (
+	"time"
+
+	"github.com/redis/rueidis/internal/cmds"
+)
+
+// Add-only exports for the verification harness (family lru: C06, C07, C08, C09, C10).
+// Flight/Update/Cancel/Delete/Close are reached through the CacheStore interface itself.
+
+const (
+	VerifLruEntryBaseSize     = entryBaseSize
+	VerifLruEntryMinSize      = entryMinSize
+	VerifLruMessageStructSize = messageStructSize
+	VerifLruMoveThreshold     = moveThreshold
+)
+
+// VerifLruNew is newLRU.
+func VerifLruNew(max int) CacheStore {
+	return newLRU(CacheStoreOption{CacheSizeEachConn: max})
+}
+
+// VerifLruFlights is (*lru).Flights; the caller owns the result containers (and may look at them
+// from VerifLruGap while the call is in progress).
+func VerifLruFlights(cs CacheStore, now time.Time, multi []CacheableTTL, results []RedisResult, entries map[int]CacheEntry) (missed []int) {
+	return cs.(*lru).Flights(now, multi, results, entries)
+}
+
+// VerifLruGetTTL is (*lru).GetTTL (it reads time.Now() itself).
+func VerifLruGetTTL(cs CacheStore, key, cmd string) time.Duration {
+	return cs.(*lru).GetTTL(key, cmd)
+}
+
+// VerifLruEntry is one element of the lru list.
+type VerifLruEntry struct {
+	Entry CacheEntry // identity (pointer) of the cacheEntry
+	Key   string
+	Cmd   string
+	Val   RedisMessage
+	Size  int
+}
+
+// VerifLruDump returns the accounted size, whether the store was closed, and the list front (oldest) to back.
+func VerifLruDump(cs CacheStore) (size int, max int, closed bool, order []VerifLruEntry, storeKeys int) {
+	c := cs.(*lru)
+	c.mu.RLock()
+	defer c.mu.RUnlock()
+	size, max = c.size, c.max
+	closed = c.store == nil
+	if c.list != nil {
+		for ele := c.list.Front(); ele != nil; ele = ele.Next() {
+			e := ele.Value.(*cacheEntry)
+			order = append(order, VerifLruEntry{Entry: e, Key: e.kc.key, Cmd: e.cmd, Val: e.val, Size: e.size})
+		}
+	}
+	for _, kc := range c.store {
+		storeKeys += len(kc.cache)
+	}
+	return
+}
+
+// VerifLruEntryState reports without blocking whether the entry's channel is closed,
+// and if so what Wait would deliver.
+func VerifLruEntryState(ce CacheEntry) (released bool, val RedisMessage, err error) {
+	switch e := ce.(type) {
+	case *cacheEntry:
+		select {
+		case <-e.ch:
+			return true, e.val, e.err
+		default:
+		}
+	case *adapterEntry:
+		select {
+		case <-e.ch:
+			return true, e.val, e.err
+		default:
+		}
+	}
+	return false, RedisMessage{}, nil
+}
+
+// VerifAdapterDump returns the flights table of an adapter: per (key, cmd) the pending entry or nil.
+type VerifAdapterFlight struct {
+	Key   string
+	Cmd   string
+	Entry CacheEntry // nil = completed / cancelled marker
+	Xat   int64
+}
+
+func VerifAdapterDump(cs CacheStore) (closed bool, flights []VerifAdapterFlight) {
+	a := cs.(*adapter)
+	a.mu.RLock()
+	defer a.mu.RUnlock()
+	closed = a.flights == nil
+	for k, entries := range a.flights {
+		for c, e := range entries {
+			f := VerifAdapterFlight{Key: k, Cmd: c}
+			if e != nil {
+				f.Entry = e
+				f.Xat = e.(*adapterEntry).xat
+			}
+			flights = append(flights, f)
+		}
+	}
+	return
+}
+
+// VerifLruMsg builds a RedisMessage field by field.
+func VerifLruMsg(typ byte, intval int64, str string, vals []RedisMessage, xat int64, mark bool) RedisMessage {
+	m := RedisMessage{typ: typ, intlen: intval}
+	if str != "" {
+		m.setString(str)
+	}
+	if vals != nil {
+		m.setValues(vals)
+	}
+	m.setExpireAt(xat)
+	if mark {
+		m.attrs = cacheMark
+	}
+	return m
+}
+
+// VerifLruMsgView is the inverse projection of VerifLruMsg.
+func VerifLruMsgView(m RedisMessage) (typ byte, intlen int64, str string, vals []RedisMessage, xat int64, mark bool, attrs bool) {
+	return m.typ, m.intlen, m.string(), m.values(), m.getExpireAt(), m.attrs == cacheMark, m.attrs != nil
+}
+
+func VerifLruApproximateSize(m RedisMessage) int { return m.approximateSize() }
+
+func VerifLruRelativePTTL(m RedisMessage, now time.Time) int64 { return m.relativePTTL(now) }
+
+// VerifLruCacheable builds a Cacheable from raw tokens and the identity-relevant flags.
+func VerifLruCacheable(ss []string, scrRo, static, mget bool) Cacheable {
+	return Cacheable(cmds.VerifLruNewCacheable(ss, scrRo, static, mget))
+}
+
+// VerifLruCacheKey is cmds.CacheKey; a panic (multi-key script, short command) is reported.
+func VerifLruCacheKey(c Cacheable) (key, cmd string, panicked bool) {
+	defer func() {
+		if r := recover(); r != nil {
+			panicked = true
+		}
+	}()
+	key, cmd = cmds.CacheKey(c)
+	return
+}
+
+func VerifLruMGetCacheCmd(c Cacheable) (cmd string, panicked bool) {
+	defer func() {
+		if r := recover(); r != nil {
+			panicked = true
+		}
+	}()
+	return cmds.MGetCacheCmd(c), false
+}
+
+func VerifLruMGetCacheKey(c Cacheable, i int) (key string, panicked bool) {
+	defer func() {
+		if r := recover(); r != nil {
+			panicked = true
+		}
+	}()
+	return cmds.MGetCacheKey(c, i), false
+}
